@@ -26,7 +26,8 @@
      gtab_ge1 t            every kappa in the gate table t is >= 1 (Model/CutFinderTable.v; kappa of every QPD basis: C15) *)
 From Coq Require Import QArith String.
 From CKT Require Import Model.CutFinder Model.CutFinderTable Proofs.CutFinderSpec Proofs.CutFinderCirc Proofs.BestFirstP
-  Proofs.BestFirstSpec Proofs.BestFirstFuel Proofs.BestFirstExchangeFinal Proofs.BestFirstRefuse Extracted.Facts.
+  Proofs.BestFirstSpec Proofs.BestFirstFuel Proofs.BestFirstExchangeFinal Proofs.BestFirstRefuse Proofs.BestFirstAttain
+  Proofs.BestFirstTotal Extracted.Facts.
 Close Scope Q_scope.
 
 (* ---- (1) every action multiplies gamma_UB by a factor >= 1 ---- *)
@@ -42,7 +43,7 @@ Theorem c08_cost_monotone : forall fa s s', gammas_ok (fa_gates fa) -> succ fa s
 Proof. exact succ_factor. Qed.
 
 (* ---- (2) generic best-first lemmas: X, cost, successor relation and invariant are arbitrary ---- *)
-Theorem c08_dijkstra : forall (X : Type) (gcost : X -> Q) (step : X -> X -> Prop) (ok : X -> Prop),
+Theorem c08_dijkstra_generic : forall (X : Type) (gcost : X -> Q) (step : X -> X -> Prop) (ok : X -> Prop),
   (forall x y, ok x -> step x y -> ok y) ->
   (forall x y, ok x -> step x y -> (gcost x <= gcost y)%Q) ->
   (* a cost-minimal frontier element is a lower bound for everything below the frontier (so the first goal popped
@@ -132,14 +133,33 @@ Proof. exact gtab_gammas_ok. Qed.
 (* flag soundness against the specification without any hypothesis on the search space: a reported minimum is the
    minimum over all assignments of permitted kinds that meet the width limit.  Hypotheses: the table check and "no qubit
    twice in one instruction" only *)
-Theorem c08_flag_sound_unbounded : forall fuel i r, gtab_ge1 (fi_gtab i) = true -> circ_nodup (fi_circ i) ->
+Theorem c08_flag_sound : forall fuel i r, gtab_ge1 (fi_gtab i) = true -> circ_nodup (fi_circ i) ->
   find_cuts_full fuel i = Val r -> md_minimum_reached (fr_meta r) = true ->
   forall A c, assignment_cost (nq_of i) (fi_W i) (fi_gate_lo i) (fi_wire_lo i) (sgates_of (fa_gates (fa_of i))) A = Some c ->
   (md_overhead (fr_meta r) <= c * c)%Q.
 Proof. exact flag_sound_table. Qed.
 
+(* ATTAINMENT: the overhead find_cuts returns is the squared cost of an assignment of permitted kinds that meets the width limit
+   in the specification (converse of pruning soundness: every goal of the guarded space, and the greedy incumbent, is read off as
+   an assignment; simulation invariant "find a = find b <-> label a = label b", Proofs/BestFirstAttain.v).  An under-reporting
+   model would violate this. *)
+Theorem c08_result_is_assignment : forall fuel i r, gtab_ge1 (fi_gtab i) = true -> circ_nodup (fi_circ i) ->
+  find_cuts_full fuel i = Val r ->
+  exists A c, assignment_cost (nq_of i) (fi_W i) (fi_gate_lo i) (fi_wire_lo i) (sgates_of (fa_gates (fa_of i))) A = Some c /\
+              (md_overhead (fr_meta r) == c * c)%Q.
+Proof. exact result_is_assignment_table. Qed.
+
+(* the two directions together: a reported minimum IS the minimum over all assignments of the specification *)
+Theorem c08_reported_minimum_is_minimum : forall fuel i r, gtab_ge1 (fi_gtab i) = true -> circ_nodup (fi_circ i) ->
+  find_cuts_full fuel i = Val r -> md_minimum_reached (fr_meta r) = true ->
+  exists A c, assignment_cost (nq_of i) (fi_W i) (fi_gate_lo i) (fi_wire_lo i) (sgates_of (fa_gates (fa_of i))) A = Some c /\
+    (md_overhead (fr_meta r) == c * c)%Q /\
+    forall A' c', assignment_cost (nq_of i) (fi_W i) (fi_gate_lo i) (fi_wire_lo i) (sgates_of (fa_gates (fa_of i))) A' = Some c' ->
+      (c * c <= c' * c')%Q.
+Proof. exact reported_minimum_is_minimum. Qed.
+
 (* against the specification; the hypothesis pruning_sound_for is c08_pruning_sound for this request *)
-Theorem c08_flag_sound : forall fuel i r, gammas_ok_in i ->
+Theorem c08_flag_sound_modulo_pruning : forall fuel i r, gammas_ok_in i ->
   pruning_sound_for (fa_gates (fa_of i)) (fi_gate_lo i) (fi_wire_lo i) (fi_W i) (fi_max_gamma i) (nq_of i) ->
   find_cuts_full fuel i = Val r -> md_minimum_reached (fr_meta r) = true ->
   forall A c, assignment_cost (nq_of i) (fi_W i) (fi_gate_lo i) (fi_wire_lo i) (sgates_of (fa_gates (fa_of i))) A = Some c ->
@@ -171,14 +191,14 @@ Proof. exact flag_sound_bounded3. Qed.
 
 (* ---- (4) the unrestricted search ---- *)
 (* no backjump limit and max_gamma at least the optimum of the search space: the flag is set *)
-Theorem c08_unrestricted : forall fuel i r, gammas_ok_in i -> find_cuts_full fuel i = Val r ->
+Theorem c08_unrestricted_guarded : forall fuel i r, gammas_ok_in i -> find_cuts_full fuel i = Val r ->
   fi_max_backjumps i = None ->
   (exists g, reach (fa_of i) (start_of i) g /\ goal (fa_of i) g /\ (cost g <= fi_max_gamma i)%Q) ->
   md_minimum_reached (fr_meta r) = true.
 Proof. exact unrestricted_sets_flag. Qed.
 
 (* ... and the returned overhead does not depend on the random tape (the seed) *)
-Theorem c08_seed_independent : forall fuel1 fuel2 i t1 t2 r1 r2, gammas_ok_in i ->
+Theorem c08_seed_independent_guarded : forall fuel1 fuel2 i t1 t2 r1 r2, gammas_ok_in i ->
   fi_max_backjumps i = None ->
   (exists g, reach (fa_of i) (start_of i) g /\ goal (fa_of i) g /\ (cost g <= fi_max_gamma i)%Q) ->
   find_cuts_full fuel1 (with_tape i t1) = Val r1 -> find_cuts_full fuel2 (with_tape i t2) = Val r2 ->
@@ -186,7 +206,7 @@ Theorem c08_seed_independent : forall fuel1 fuel2 i t1 t2 r1 r2, gammas_ok_in i 
 Proof. exact seed_independent. Qed.
 
 (* the returned overhead is attained: it is that of the greedy incumbent or of a goal of the search space, and it is
-   never worse than the incumbent's (so under c08_unrestricted it is the minimum of both) *)
+   never worse than the incumbent's (so under c08_unrestricted_guarded it is the minimum of both) *)
 Theorem c08_result_attained : forall fuel i r, gammas_ok_in i -> find_cuts_full fuel i = Val r ->
   (greedy_of (fa_of i) (nq_of i) = Some (fr_best r) \/
    (reach (fa_of i) (start_of i) (fr_best r) /\ goal (fa_of i) (fr_best r))) /\
@@ -195,13 +215,13 @@ Theorem c08_result_attained : forall fuel i r, gammas_ok_in i -> find_cuts_full 
 Proof. exact result_attained. Qed.
 
 (* (4) in terms of the SPECIFICATION, under the hypothesis c08_pruning_sound for the request ... *)
-Theorem c08_unrestricted_spec : forall fuel i r, gammas_ok_in i ->
+Theorem c08_unrestricted_modulo_pruning : forall fuel i r, gammas_ok_in i ->
   pruning_sound_for (fa_gates (fa_of i)) (fi_gate_lo i) (fi_wire_lo i) (fi_W i) (fi_max_gamma i) (nq_of i) ->
   find_cuts_full fuel i = Val r -> fi_max_backjumps i = None -> spec_within i ->
   md_minimum_reached (fr_meta r) = true.
 Proof. exact unrestricted_spec. Qed.
 
-Theorem c08_seed_independent_spec : forall fuel1 fuel2 i t1 t2 r1 r2, gammas_ok_in i ->
+Theorem c08_seed_independent_modulo_pruning : forall fuel1 fuel2 i t1 t2 r1 r2, gammas_ok_in i ->
   pruning_sound_for (fa_gates (fa_of i)) (fi_gate_lo i) (fi_wire_lo i) (fi_W i) (fi_max_gamma i) (nq_of i) ->
   fi_max_backjumps i = None -> spec_within i ->
   find_cuts_full fuel1 (with_tape i t1) = Val r1 -> find_cuts_full fuel2 (with_tape i t2) = Val r2 ->
@@ -209,16 +229,28 @@ Theorem c08_seed_independent_spec : forall fuel1 fuel2 i t1 t2 r1 r2, gammas_ok_
 Proof. exact seed_independent_spec. Qed.
 
 (* ... and without that hypothesis, unbounded *)
-Theorem c08_unrestricted_unbounded : forall fuel i r, gtab_ge1 (fi_gtab i) = true -> circ_nodup (fi_circ i) ->
+Theorem c08_unrestricted : forall fuel i r, gtab_ge1 (fi_gtab i) = true -> circ_nodup (fi_circ i) ->
   find_cuts_full fuel i = Val r -> fi_max_backjumps i = None -> spec_within i ->
   md_minimum_reached (fr_meta r) = true.
 Proof. exact unrestricted_table. Qed.
 
-Theorem c08_seed_independent_unbounded : forall fuel1 fuel2 i t1 t2 r1 r2, gtab_ge1 (fi_gtab i) = true -> circ_nodup (fi_circ i) ->
+Theorem c08_seed_independent : forall fuel1 fuel2 i t1 t2 r1 r2, gtab_ge1 (fi_gtab i) = true -> circ_nodup (fi_circ i) ->
   fi_max_backjumps i = None -> spec_within i ->
   find_cuts_full fuel1 (with_tape i t1) = Val r1 -> find_cuts_full fuel2 (with_tape i t2) = Val r2 ->
   (md_overhead (fr_meta r1) == md_overhead (fr_meta r2))%Q.
 Proof. exact seed_independent_table. Qed.
+
+(* TOTAL form of the unrestricted clause ("ALWAYS reports the minimum as reached"): inside the domain (multi-qubit gates are
+   two-qubit gates on distinct qubits known to the gate table, no classical bits, valid settings, width limit >= 1, at least one
+   cut kind) an unrestricted request for which some assignment of the specification lies within max_gamma RETURNS A VALUE, and the
+   flag is set.  (Not Crash / NoFuel: C07 never-crashes, enough fuel; not ValueError: a dead-ended greedy pass with known gammas
+   means no gate cuts and W = 1, where the specification admits no assignment.) *)
+Theorem c08_unrestricted_total : forall fuel i, gtab_ge1 (fi_gtab i) = true -> circ_wf (fi_circ i) ->
+  (forall x, In x (fi_circ i) -> is_multi x = true -> kappa_of (fi_gtab i) x <> None) ->
+  fi_ncl i = 0 -> 1 <= fi_W i -> settings_ok i = true -> (fi_gate_lo i = true \/ fi_wire_lo i = true) ->
+  fi_max_backjumps i = None -> spec_within i -> tree_size 5 (length (fa_gates (fa_of i))) + 3 <= fuel ->
+  exists r, find_cuts_full fuel i = Val r /\ md_minimum_reached (fr_meta r) = true.
+Proof. exact unrestricted_total. Qed.
 
 (* ... and on the finite domain by enumeration *)
 Theorem c08_unrestricted_bounded : forall fuel i r lab c used, In (c, used) (circuits_upto 4 [3%Q; 7%Q] 3) ->
@@ -323,6 +355,43 @@ Proof.
   exists (mkI (Gate 2) [0; 1; 2] []). split; [right; left; reflexivity|]. split; [reflexivity|discriminate].
 Qed.
 
+(* ---- a non-trivial instance that inhabits the real hypotheses of the request-level theorems: 5 qubits,
+   swap(0,1) swap(1,2) cx(2,3) swap(3,4) swap(1,3), W = 3, gate and wire cuts, NO backjump limit, two different tapes ---- *)
+Definition five_input (W : nat) (gl wl : bool) (mg : Q) (mb : option Z) (tape : nat -> Q) : fc_input :=
+  mkIn 5 0 [mkI (Gate 1) [0; 1] []; mkI (Gate 1) [1; 2] []; mkI (Gate 0) [2; 3] []; mkI (Gate 1) [3; 4] []; mkI (Gate 1) [1; 3] []]
+       [(0, (3%Q, Qpd2 0 None (Some (0, None)))); (1, (7%Q, Qpd2 1 None (Some (1, None))))] W gl wl mg mb tape.
+Definition tapeA (k : nat) : Q := (Z.of_nat ((k * 7 + 3) mod 11) # 11).
+Definition tapeB (k : nat) : Q := (Z.of_nat ((k * 5 + 1) mod 13) # 13).
+Definition five : fc_input := five_input 3 true true 1024 None tapeA.
+
+(* the optimum 12 = 3 (gate cut of cx) * 4 (one wire cut) is found and reported under both tapes; with max_gamma = 5 below the
+   optimum, or with a backjump limit of 1, the flag is NOT set (the greedy incumbent, which happens to be optimal, is returned unconfirmed) *)
+Example c08_ex_five_runs :
+  overhead_and_flag (find_cuts_full 4000 five) = Some (144%Q, true) /\
+  overhead_and_flag (find_cuts_full 4000 (with_tape five tapeB)) = Some (144%Q, true) /\
+  overhead_and_flag (find_cuts_full 4000 (five_input 3 true true 5 None tapeA)) = Some (144%Q, false) /\
+  overhead_and_flag (find_cuts_full 4000 (five_input 3 true true 1024 (Some 1%Z) tapeA)) = Some (144%Q, false).
+Proof. repeat split; vm_compute; reflexivity. Qed.
+
+Example c08_ex_five_circ_wf : circ_wf (fi_circ five).
+Proof.
+  intros x H _. cbn in H. repeat (destruct H as [<-|H]; [split; [reflexivity|repeat constructor; cbn; intuition discriminate]|]).
+  destruct H.
+Qed.
+
+Example c08_ex_five_hyps :
+  gtab_ge1 (fi_gtab five) = true /\ circ_nodup (fi_circ five) /\ fi_max_backjumps five = None /\ fi_wire_lo five = true /\
+  spec_within five /\
+  (forall x, In x (fi_circ five) -> is_multi x = true -> kappa_of (fi_gtab five) x <> None) /\
+  fi_ncl five = 0 /\ 1 <= fi_W five /\ settings_ok five = true /\ tree_size 5 (length (fa_gates (fa_of five))) + 3 <= 4000.
+Proof.
+  split; [reflexivity|]. split; [exact (circ_wf_nodup _ c08_ex_five_circ_wf)|]. split; [reflexivity|]. split; [reflexivity|].
+  split; [exists [Leave; Leave; CutGate; Leave; CutLeft], (1 * 1 * 1 * 3 * 1 * 4)%Q; split; [reflexivity|discriminate]|].
+  split.
+  - intros x H _. cbn in H. repeat (destruct H as [<-|H]; [vm_compute; discriminate|]). destruct H.
+  - split; [reflexivity|]. split; [cbn; lia|]. split; [reflexivity|]. vm_compute. lia.
+Qed.
+
 Example c08_ex_spec_within : spec_within (f3_input 3 (fun _ => 0%Q)).
 Proof. exists [CutGate; Leave], (1 * 3 * 1)%Q. split; [reflexivity|discriminate]. Qed.
 
@@ -345,26 +414,30 @@ Proof. reflexivity. Qed.
 
 Print Assumptions c08_action_factor.
 Print Assumptions c08_cost_monotone.
-Print Assumptions c08_dijkstra.
+Print Assumptions c08_dijkstra_generic.
 Print Assumptions c08_frontier_invariant.
 Print Assumptions c08_flag_sound_guarded.
-Print Assumptions c08_flag_sound.
+Print Assumptions c08_flag_sound_modulo_pruning.
 Print Assumptions c08_pruning_sound.
 Print Assumptions c08_pruning_sound_request.
-Print Assumptions c08_flag_sound_unbounded.
+Print Assumptions c08_flag_sound.
 Print Assumptions c08_result_two_qubit.
+Print Assumptions c08_factor_ge_1.
+Print Assumptions c08_result_is_assignment.
+Print Assumptions c08_reported_minimum_is_minimum.
+Print Assumptions c08_unrestricted_total.
 Print Assumptions c08_driver_invariant.
 Print Assumptions c08_wide_gate_no_result.
 Print Assumptions c08_gammas_from_table.
-Print Assumptions c08_unrestricted_unbounded.
-Print Assumptions c08_seed_independent_unbounded.
-Print Assumptions c08_pruning_sound_bounded.
-Print Assumptions c08_flag_sound_bounded.
 Print Assumptions c08_unrestricted.
 Print Assumptions c08_seed_independent.
+Print Assumptions c08_pruning_sound_bounded.
+Print Assumptions c08_flag_sound_bounded.
+Print Assumptions c08_unrestricted_guarded.
+Print Assumptions c08_seed_independent_guarded.
 Print Assumptions c08_result_attained.
-Print Assumptions c08_unrestricted_spec.
-Print Assumptions c08_seed_independent_spec.
+Print Assumptions c08_unrestricted_modulo_pruning.
+Print Assumptions c08_seed_independent_modulo_pruning.
 Print Assumptions c08_unrestricted_bounded.
 Print Assumptions c08_seed_independent_bounded.
 Print Assumptions c08_enough_fuel.
